@@ -47,7 +47,20 @@ CFG = {
     "n": {"quick": 4000, "thorough": 250000},
     "exhaustive": {"quick": False, "thorough": True},
     "shrink": False,
-    "rule": "corpus (defect #17 input, the unit-test fixtures, one case per rejection rule, huge numbers, comments.case: the concrete instance of objstm_spelled_roundtrip and headers with comments in every run, accepted and rejected; filtered.case: the concrete instance of objstm_roundtrip_encoded - hex over Flate + PNG Up - and the two concrete corrupt-layer rejections; dynamic.case: the concrete instance of Props/C14Dyn.lean - the same members behind ONE dynamic-Huffman zlib block with a hand-written header - accepted, and cut in the Huffman-coded data / one byte before the end of the trailer / with an altered Adler-32 byte: rejected) + exhaustive small space: every content over "
+    "rule": "corpus (defect #17 input, the unit-test fixtures, one case per rejection rule, huge numbers, comments.case: the concrete instance of objstm_spelled_roundtrip and headers with comments in every run, accepted and rejected; filtered.case: the concrete instance of objstm_roundtrip_encoded - hex over Flate + PNG Up - and the two concrete corrupt-layer rejections; dynamic.case: the concrete instance of Props/C14Dyn.lean - the same members behind ONE dynamic-Huffman zlib block with a hand-written header - accepted, and cut in the Huffman-coded data / one byte before the end of the trailer / with an altered Adler-32 byte: rejected; tight.case: the minimal instances of the MINIMAL-LAYOUT family below - /N 1 /First 3 `7 0<<>>`, /N 2 /First 7 "
+            "`9 0 4 3[] ()` and `1 0 2 2[]()`, /N 7 /First 27, the two-digit boundary, /First one less (rejected) and one more, behind Flate / ASCIIHex / ASCII85 over Flate) + MINIMAL-LAYOUT headers, systematic (after missed seed C14_5, a fail-fast "
+            "`/N > /First / 4`): the header of N pairs packed as tightly as the syntax allows - no white space before the first identifier, every separator exactly ONE byte (each of the six "
+            "white-space bytes, and mixtures), identifiers and offsets with the fewest digits, the first object directly after the last offset digit, /First = header length, which is 4N - 1 when all "
+            "numbers are single digits (class tight; tight2 = some number needs two digits, incl. the boundary /First = 4N) - over members with the shortest spellings of each syntactic class "
+            "(1 7 [] () <> /A <<>> null true) laid out touching each other wherever the syntax allows it (`[]()`, `<<>>/A`, `1[]`; one white-space byte only between two regular characters; a "
+            "quarter again with a byte between every two): N = 1, 2: every member sequence x 7 separator choices; N = 3: every sequence; N = 4 every 11th, N = 5, 6 over the <= 2-byte members "
+            "every 13th / 79th (thorough: N <= 4 and N = 5 over the short members complete, N = 5 full pool every 7th, N = 6 every 3rd); N = 7 (the largest N with single-digit offsets: 1-byte "
+            "integers alternating with 2-byte objects) every 16th of 3072 (thorough: all); N = 8..12, 16 with two-digit numbers, 30 (300) each; ids a rotation of 1..9, junk after the last member "
+            "or none; with each stream its neighbours - /First one LESS than the header (the last pair loses its offset: must be rejected; with a two-digit last offset correspondence only), one "
+            "white-space byte of padding and /First one MORE (same members), /First one more over the same data (correspondence + no panic) - all three for N <= 2, in rotation above - and, for "
+            "every second one, the stream behind a filter option of the generator in rotation (Flate stored block with junk before the cursor in 3 dictionary spellings / chain drawn by C06's "
+            "randChain / the systematic chains of length 1 and 2 / Flate + TIFF or PNG predictor); 5 dictionary spellings; expected members from the spec-side layout (memberWant) "
+            "+ exhaustive small space: every content over "
             "{1,2,blank,x} and every content over {1,blank,%,LF} containing % or LF (comments with and without a terminating LF before an offset), of length <= 4 (thorough: <= 5), x every offset pair (o0,o1) in [0,len+1]^2 under a 2-pair header (quick: every 3rd), judged "
             "by a small digit reader that looks only at the bytes from the declared offset on + random streams: 1..6 members with values from the C02 generator spelled by the C02 encoder, ids incl. "
             "2^32 and 2^63-1, three gap styles (contiguous as the unit tests / white space / arbitrary non-object bytes incl. unbalanced delimiters, "
@@ -69,7 +82,7 @@ CFG = {
             "single-rule corruption: non-increasing offset, /N larger than the pairs present, /First >= |data|, next offset inside the previous "
             "object, id predefined, id repeated, 14 dictionary defects, offset beyond the content / 2^32 / 2^63-1 / 2^63 / 2^64 / 10^30, id replaced "
             "by a fresh one (must still extract), nesting bound below the deepest member, byte truncation/alteration and arbitrary header-number "
-            "replacement (correspondence + no panic). non-trivial = >= 2 members or a Flate / filter-chain case (rt), both offsets inside the content and distinct "
+            "replacement (correspondence + no panic). non-trivial = >= 2 members or a Flate / filter-chain / minimal-layout case (rt), both offsets inside the content and distinct "
             "(ex), >= 12 data bytes (rej/mut); distinct by case hash",
     "trusted_base": COMMON_TB + [
         "modelled, not verified: ParseBuffer views as byte lists with a view-relative cursor (C17), BTreeMap as a key-ordered association list",
